@@ -1,6 +1,6 @@
 (* Properties/C06.v -- SYN policy mimics Linux; SYN-ACK acks seq+1 with a deterministic cookie.
    This file only pins statements; the proofs are in Proofs/C06.v. *)
-From MS Require Import L2 Spec.View Spec.RefDec Spec.C06 Proofs.C06.
+From MS Require Import L2 Spec.View Spec.RefDec Spec.C06 Proofs.C06 Proofs.C06Cor.
 
 (* For every configuration, table (= whatever happened before) and frame: what is
    emitted satisfies the C06 monitor: a SYN-bearing segment that reaches TCP gets
@@ -39,3 +39,35 @@ Print Assumptions C06_syn_policy.
 Print Assumptions C06_syn_leaves_table.
 Print Assumptions C06_flag_table.
 Print Assumptions C06_cookie_encoding_injective.
+
+(* The two clauses of the flag rule as plain statements about the decoded reply
+   (no monitor in the statement). *)
+
+(* An acceptable SYN is answered, and the answer decodes as a TCP segment with
+   exactly SYN|ACK, acknowledgement = sequence + 1 (mod 2^32), no payload and
+   sequence = the cookie of the 4-tuple under the configured key -- whatever the
+   table, the clock and the environment are. *)
+Theorem C06_syn_gets_synack :
+  forall E cfg clk tb tb' f r evs v,
+    cfg_ok cfg = true -> bytes_ok f = true ->
+    reply E cfg clk tb f = Ok (tb', r, evs) ->
+    view_tcp cfg f = Some v ->
+    has_syn (tcp_flags (v_l4 v)) = true -> linux_ok (tcp_flags (v_l4 v)) = true ->
+    exists rf e i t, r = Some rf /\ dec_frame_tcp rf = Some (e, i, t) /\
+      dt_flags t = 18 /\ dt_ack t = wrap32 (u32_at 4 (v_l4 v) + 1) /\
+      dt_payload t = [] /\
+      dt_seq t = cookie (c_key0 cfg) (c_key1 cfg) (v_src v) (v_dst v)
+                        (u16_at 0 (v_l4 v)) (u16_at 2 (v_l4 v)).
+Proof. exact syn_gets_synack. Qed.
+Print Assumptions C06_syn_gets_synack.
+
+(* A SYN with any other flag combination never gets a SYN|ACK. *)
+Theorem C06_bad_syn_no_synack :
+  forall E cfg clk tb tb' f rf evs v e i t,
+    cfg_ok cfg = true -> bytes_ok f = true ->
+    reply E cfg clk tb f = Ok (tb', Some rf, evs) ->
+    view_tcp cfg f = Some v ->
+    has_syn (tcp_flags (v_l4 v)) = true -> linux_ok (tcp_flags (v_l4 v)) = false ->
+    dec_frame_tcp rf = Some (e, i, t) -> dt_flags t <> 18.
+Proof. exact bad_syn_no_synack. Qed.
+Print Assumptions C06_bad_syn_no_synack.
